@@ -971,3 +971,19 @@ package getoptions
 //@   ensures def.default {C06}: len(fns) == 0 ==> !Tbl(gopt)[name].Called && Tbl(gopt)[name].UsedAlias == ""
 //@   ensures def.minmax {C02}: Tbl(gopt)[name].MinArgs == min && Tbl(gopt)[name].MaxArgs == max && 1 <= min && min <= max
 //@   ensures def.node: NodeOK(gopt.programTree)
+// ---- end of generated definer contracts
+
+// ---- determinism (C20): the postconditions that pick "which one" are single-valued -------------------------
+//@ lemma FirstMissingUnique(m map[string]*option.Option, k1 string, k2 string)
+//@   props C20 C11
+//@   requires FirstMissing(m, k1) && FirstMissing(m, k2)
+//@   ensures firstmissing.unique {C20,C11}: k1 == k2
+//@ lemma ResolvesUnique(n *programTree, e string, k1 string, k2 string)
+//@   props C20 C05
+//@   requires n != nil && Resolves(n, e, k1) && Resolves(n, e, k2)
+//@   ensures resolves.unique {C20,C05}: k1 == k2
+//@ lemma ResolveTrichotomy(n *programTree, e string)
+//@   props C20 C05 C08
+//@   requires n != nil
+//@   ensures resolve.cases {C20,C05,C08}: Unresolved(n, e) || Ambiguous(n, e) || (exists k string :: Resolves(n, e, k))
+//@   ensures resolve.exclusive {C20,C05}: !(Unresolved(n, e) && Ambiguous(n, e)) && (forall k string :: Resolves(n, e, k) ==> !Unresolved(n, e) && !Ambiguous(n, e))
